@@ -170,6 +170,7 @@ def finish(ctx, level_text, seed=0):
             "instance_counts": ctx.counts,
             "writers_of_tracked_items": ctx.cache.get("writers"),
             "rules": ctx.rule_texts,
+            "reanchored_functions": [{"known_as": a, "found_at": b} for a, b in getattr(ctx.facts, "moved", [])],
             "not_decided": ctx.not_decided,
             "tree_hash": ctx.tree_hash,
             "checker_cmd": "./check %s --tier %s" % (pid, ctx.tier),
